@@ -65,6 +65,16 @@ ASSUMPTIONS = [
     "point-wise fall-back of ScalarField.from_expression (user function with a python `if`, Piecewise, sign): "
     "the threshold lies in the middle of a gap (> 1e-7 relative) between the values the argument takes on the "
     "grid; no array constants and no `cartesian[i]` (the cell-by-cell evaluation rejects them with a ValueError)",
+    "a failure that sympy alone reproduces without any repository code - the same exception from parse_expr, "
+    "simplify or the function built by lambdify, or a free dummy symbol returned by simplify - is a loud "
+    "rejection by the third-party library: counted as rejected, not judged (the diagnosis runs only after a "
+    "failure was observed; if it fails itself the violation stands).  A silent value change by sympy.simplify "
+    "alone (30-digit evalf of parsed and simplified text differ) is reported as the listed known finding",
+    "numba cannot lower a list of arrays with different memory layouts: TensorExpression.get_function('numba', "
+    "single_arg=True) called with a 2-d argument array fails to compile with an assertion inside numba for forms "
+    "holding a bare variable next to a computed entry; counted as rejected",
+    "parse_number on a point within round-off of a jump (floor(-2/tanh(729))) may raise sympy's "
+    "PrecisionExhausted: ill-conditioned, not judged",
     "repeated get_function requests: the per-request user function f is not also given at construction "
     "(precedence between the two is not documented); arguments in [0.2, 1.5]",
 ]
@@ -106,11 +116,32 @@ def accept(fn, text, what):
         # simplify call that does not return this is counted and not judged
         raise _Timeout() from None
     except (ValueError, RuntimeError, NotImplementedError, TypeError, KeyError, AttributeError) as e:
+        why = sympy_rejects(text, e)
+        if why:
+            raise Rejected(why) from None
         raise Violation(f"{what}: sound input `{text}` rejected with {type(e).__name__}: {str(e)[:300]}",
                         key=f"rejected-sound-input:{what}:{type(e).__name__}") from None
 
 
-def run_generated(fn, text, what):
+def sympy_rejects(text, e):
+    """reason when sympy alone (no repository code) fails on the text like the code under test did"""
+    if not isinstance(text, str):
+        return None
+    try:
+        alone = SympyAlone(text, *split_names(text))
+    except Exception:  # noqa: BLE001
+        return None
+    if alone.raises_same(type(e).__name__, str(e)):
+        return (f"sympy alone ({alone.stage}) raises the same {type(e).__name__}: {str(e)[:80]} "
+                "[loud failure of the third-party library]")
+    new = alone.new_free_symbols()
+    stem = lambda n: re.sub(r"\d+$", "", n)  # noqa: E731  (dummy symbols are numbered per process)
+    if new and any(stem(n) in str(e) and stem(n) not in text for n in new):
+        return f"sympy.simplify alone introduces the free symbol(s) {sorted(new)} [third-party bug, loud]"
+    return None
+
+
+def run_generated(fn, text, what, diag=None):
     """Call code generated from an expression.  Exceptions raised *inside* generated code have
     no repository frame at the end of their traceback, so they are classified here: a name that
     does not occur in the written text was introduced by sympy.simplify (``re``, ``sign`` ...) -
@@ -129,8 +160,119 @@ def run_generated(fn, text, what):
         if name is not None and not re.search(rf"\b{re.escape(name)}\b", text):
             raise Rejected(f"simplification introduced the unsupported function `{name}`") from None
         short = msg.strip().splitlines()[0][:300] if msg.strip() else ""
+        if diag is not None and isinstance(text, str):
+            # ``diag`` = (argument names, argument values): does the function that sympy.lambdify alone
+            # builds for the simplified text fail in the same way?
+            try:
+                alone = SympyAlone(text, *split_names(text))
+                same = alone.lambdified_raises_same(diag[0], diag[1], type(e).__name__, msg)
+            except Exception:  # noqa: BLE001
+                same = False
+            if same:
+                raise Rejected(f"the function sympy.lambdify alone builds raises the same {type(e).__name__}: "
+                               f"{short[:80]} [loud failure of the third-party library]") from None
         raise Violation(f"{what}: unexpected {type(e).__name__}: {short} for `{text}`",
                         key=f"exception:{type(e).__name__}:{what}") from None
+
+
+# ---- attribution of failures to sympy itself -------------------------------------------------
+KEY_SIMPLIFY = "C11:sympy.simplify-in-ExpressionBase.__init__:rewritten-expression-has-different-value"
+_NAME_RE = re.compile(r"[A-Za-z_][A-Za-z_0-9]*")
+
+
+class SympyAlone:
+    """The same text taken through sympy alone (``parse_expr`` -> ``simplify`` -> ``lambdify``), without
+    any code of the repository.  Used only AFTER a failure was observed, to decide whether its root
+    cause lies in sympy: an exception that sympy raises by itself with the same type and message is a
+    loud rejection by the third-party library (counted, not judged); a ``simplify`` result whose value
+    (sympy's own 30-digit evalf) differs from the value of the parsed text is the listed known finding.
+    Any failure of this diagnosis itself means `not attributed`: the original violation stands."""
+
+    def __init__(self, text, symbols=(), functions=()):
+        import sympy
+        from sympy.parsing.sympy_parser import parse_expr
+
+        self.sympy = sympy
+        self.stage = None  # stage at which sympy alone raised
+        self.exc = None
+        self.parsed = self.simplified = None
+        local = {n: sympy.Symbol(n) for n in symbols}
+        local.update({n: sympy.Function(n) for n in functions})
+        try:
+            with time_limit(2 * SIMPLIFY_LIMIT):
+                self.stage = "parse_expr"
+                self.parsed = parse_expr(text, local_dict=local).subs(sympy.Function("heaviside"), sympy.Heaviside)
+                self.stage = "simplify"
+                self.simplified = sympy.simplify(self.parsed)
+                self.stage = None
+        except _Timeout:
+            self.stage = "timeout"
+        except Exception as e:  # noqa: BLE001
+            self.exc = e
+
+    def raises_same(self, exc_type_name, message):
+        """did sympy alone raise an exception of this type with this message (parse/simplify)?"""
+        e = self.exc
+        return (e is not None and type(e).__name__ == exc_type_name
+                and str(e).strip()[:80] == str(message).strip()[:80])
+
+    def new_free_symbols(self):
+        if self.simplified is None:
+            return set()
+        return {str(x) for x in self.simplified.free_symbols - self.parsed.free_symbols}
+
+    def lambdified_raises_same(self, names, args, exc_type_name, message):
+        """does the function sympy.lambdify builds for the simplified expression raise the same error?"""
+        if self.simplified is None:
+            return False
+        try:
+            fn = self.sympy.lambdify([self.sympy.Symbol(n) for n in names], self.simplified, modules="numpy")
+            with np.errstate(all="ignore"):
+                fn(*args)
+        except Exception as e:  # noqa: BLE001
+            return type(e).__name__ == exc_type_name and str(e).strip()[:80] == str(message).strip()[:80]
+        return False
+
+    def value_changed(self, point, scale, real_only=False):
+        """(parsed value, simplified value) at ``point`` (name -> float) with sympy's own evalf when they
+        differ by more than 1e-9*scale, else None"""
+        if self.simplified is None:
+            return None
+        sympy = self.sympy
+        subs = {sympy.Symbol(n): sympy.Float(repr(float(v)), 40) for n, v in point.items()}
+        try:
+            with time_limit(2 * SIMPLIFY_LIMIT):
+                a = complex(self.parsed.evalf(30, subs=subs))
+                b = complex(self.simplified.evalf(30, subs=subs))
+        except _Timeout:
+            return None
+        except Exception:  # noqa: BLE001
+            return None
+        if not (math.isfinite(a.real) and math.isfinite(a.imag)):
+            return None
+        if real_only and abs(a.imag) > 1e-12 * (1 + abs(a.real)):
+            return None
+        if abs(a - b) > 1e-9 * (abs(scale) + abs(a)):
+            return a, b
+        return None
+
+
+def split_names(text, user_funcs=()):
+    """(symbols, functions) to declare when parsing ``text`` with sympy alone: every identifier that is
+    not called is a symbol (except pi, E), every called identifier that sympy does not know is a function"""
+    import sympy
+
+    syms, funcs = set(), set(user_funcs)
+    for m in _NAME_RE.finditer(text):
+        if m.start() > 0 and text[m.start() - 1] in "0123456789.":
+            continue  # exponent of a number (1e0)
+        name = m.group(0)
+        if text[m.end():].lstrip().startswith("("):
+            if not hasattr(sympy, name):
+                funcs.add(name)
+        elif name not in ("pi", "E", "I", "True", "False"):
+            syms.add(name)
+    return sorted(syms - funcs), sorted(funcs)
 
 
 def root_kind(ast):
@@ -166,10 +308,13 @@ def compare(got, res, what, key, tolk, shape_exact=None, text=""):
     fail = good & ~(dev <= tol)
     if fail.any():
         i = np.unravel_index(int(np.argmax(np.where(fail, dev / tol, 0))), want_shape)
-        raise Violation(
+        vio = Violation(
             f"{what}: `{text}` gave {g[i]!r}, formula value {res.v[i]!r} (|dev|={dev[i]:.3g}, "
             f"tolerance {tol[i]:.3g} = {tolk:g}*eps*{res.E[i]:.3g}) at point index {tuple(int(j) for j in i)}",
             key=key)
+        vio.index = tuple(int(j) for j in i)
+        vio.scale = float(res.E[i])
+        raise vio
     worst = float(np.max(np.where(good, dev / tol, 0))) * tolk
     return int(good.sum()), worst
 
@@ -400,6 +545,54 @@ def oracle(case, ast, envd, consts, full, wrt=None):
         raise HarnessError(f"generator produced an ill-defined formula: {e}") from None
 
 
+def point_at(case, envd, consts, full, index):
+    """text name -> float value of every variable and constant at the point ``index`` (None if the case
+    uses indexed variables or the point cannot be reconstructed)"""
+    if index is None:
+        return None
+    try:
+        pt = {}
+        for v in case["vars"]:
+            if v.get("n"):
+                return None
+            txt = case["sig"]["names"].get(v["name"], v["name"])
+            pt[txt] = float(np.broadcast_to(np.asarray(envd[v["name"]], dtype=float), full)[index])
+        for name, val in consts.items():
+            pt[name] = float(np.broadcast_to(np.asarray(val, dtype=float), full)[index])
+        return pt
+    except Exception:  # noqa: BLE001
+        return None
+
+
+def attribute_value(vio, text, point=None):
+    """Re-key a value mismatch as the known finding when sympy.simplify ALONE changes the value of the
+    parsed text at the failing point (30-digit evalf of both); otherwise return the violation unchanged."""
+    if not isinstance(text, str):
+        return vio
+    try:
+        syms, funcs = split_names(text)
+        alone = SympyAlone(text, syms, funcs)
+        if point is not None:
+            changed = alone.value_changed(point, getattr(vio, "scale", 1.0))
+        else:
+            # the failing point is not available in terms of the names of the text (coordinates of a
+            # grid, fields): three fixed generic points, judged only where the parsed text is real
+            changed = None
+            for vals in ([0.7, 1.3, 0.45, 1.9, 0.85], [1.1, 0.6, 1.7, 0.35, 1.45], [0.55, 1.6, 0.9, 1.25, 0.4]):
+                point = {n: vals[i % len(vals)] for i, n in enumerate(syms)}
+                changed = alone.value_changed(point, 1.0, real_only=True)
+                if changed is not None:
+                    break
+    except Exception:  # noqa: BLE001
+        return vio
+    if changed is None:
+        return vio
+    a, b = changed
+    return Violation(
+        f"{vio.detail}; sympy alone: parse_expr(text) = {alone.parsed} has the value {a.real!r} at {point}, "
+        f"sympy.simplify of it = {alone.simplified} has the value {b.real!r}", key=KEY_SIMPLIFY)
+
+
 def base_record(case, ast, alts, judged, worst, extra=()):
     labs = ast_labels(ast, alts)
     labs += [f"layout:{case['args']['layout']}", f"sig:{case['sig']['mode']}", dev_label(worst)]
@@ -435,21 +628,24 @@ def check_value(case, backend="numpy", tolk=TOLK):
     if dt > 3:
         extra.append("parse>3s")
 
+    diag = None
+    if backend == "numpy" and not any(v.get("n") for v in case["vars"]):
+        diag = (list(expr.vars) + list(consts), list(args) + [consts[c] for c in consts])
     if route == "call":
-        got = run_generated(lambda: expr(*args), text, f"{backend}/{route}")
+        got = run_generated(lambda: expr(*args), text, f"{backend}/{route}", diag)
     elif route == "copy":
         cp = ScalarExpression(expr)
-        got = run_generated(lambda: cp(*args), text, f"{backend}/{route}")
+        got = run_generated(lambda: cp(*args), text, f"{backend}/{route}", diag)
     elif route == "kwargs":
         if consts:
-            got = run_generated(lambda: expr(*args), text, f"{backend}/{route}")
+            got = run_generated(lambda: expr(*args), text, f"{backend}/{route}", diag)
             extra.append("kwargs-with-consts->positional")
         else:
             kwargs = dict(zip(expr.vars, args))
-            got = run_generated(lambda: expr(**kwargs), text, f"{backend}/{route}")
+            got = run_generated(lambda: expr(**kwargs), text, f"{backend}/{route}", diag)
     elif route == "get_function":
         f = expr.get_function(backend)
-        got = run_generated(lambda: f(*args), text, f"{backend}/{route}")
+        got = run_generated(lambda: f(*args), text, f"{backend}/{route}", diag)
     elif route == "single_arg":
         f = expr.get_function(backend, single_arg=True)
         if any(v.get("n") for v in case["vars"]):
@@ -467,7 +663,10 @@ def check_value(case, backend="numpy", tolk=TOLK):
         if got.dtype != bool:
             raise Violation(f"comparison `{text}` returned dtype {got.dtype}", key=key + ":cmp-dtype")
         got = got.astype(float)
-    judged, worst = compare(got, res, f"{backend}/{route}", key, tolk, text=text)
+    try:
+        judged, worst = compare(got, res, f"{backend}/{route}", key, tolk, text=text)
+    except Violation as vio:
+        raise attribute_value(vio, text, point_at(case, envd, consts, full, getattr(vio, "index", None))) from None
     if res.exact_jumps:
         extra.append("exact-jump-hit")
     if res.bad.any():
@@ -541,8 +740,11 @@ def check_tensor(case, backend="numpy", tolk=TOLK):
 
     def cmp_component(got, idx, flat_i):
         nonlocal judged, worst
-        j, w = compare(got, results[flat_i], f"{backend}/{route} component {idx}", key, tolk,
-                       text=texts[flat_i])
+        try:
+            j, w = compare(got, results[flat_i], f"{backend}/{route} component {idx}", key, tolk,
+                           text=texts[flat_i])
+        except Violation as vio:
+            raise attribute_value(vio, texts[flat_i]) from None
         judged += j
         worst = max(worst, w)
 
@@ -745,7 +947,10 @@ def check_field(case):
             res = G.evaluate_ast(case["asts"][flat_i], env_all, shape=full)
         except G.DomainBug as e:
             raise HarnessError(f"generator produced an ill-defined formula: {e}") from None
-        j, w = compare(f.data[idx], res, f"from_expression component {idx}", key, TOLK, text=texts[flat_i])
+        try:
+            j, w = compare(f.data[idx], res, f"from_expression component {idx}", key, TOLK, text=texts[flat_i])
+        except Violation as vio:
+            raise attribute_value(vio, texts[flat_i]) from None
         judged += j
         worst = max(worst, w)
     labs = [GG.grid_label(spec), f"rank:{rank}", f"grid:{spec['cls']}:rank{rank}", dev_label(worst)]
@@ -795,8 +1000,13 @@ def fd_derivative(ast, env_all, name, full):
     def cd(hh):
         return (f(x + hh) - f(x - hh)) / (2 * hh)
 
-    d1, d2 = cd(h), cd(h / 2)
-    return (4 * d2 - d1) / 3
+    def richardson(hh):
+        d1, d2 = cd(hh), cd(hh / 2)
+        return (4 * d2 - d1) / 3
+
+    # two step sizes: the estimate is only used where both agree (converged); a rapidly oscillating
+    # formula (sin(x**8) at x = 3) leaves the finite differences inconclusive
+    return richardson(h), richardson(h / 8)
 
 
 def check_derivative(case):
@@ -821,8 +1031,13 @@ def check_derivative(case):
         except G.DomainBug as e:
             raise HarnessError(f"generator produced an ill-defined formula: {e}") from None
         # harness self-check: forward mode against finite differences of the same evaluator
-        if np.any(np.abs(fd - res.d) > 1e-4 * (res.DE + np.abs(res.d)) + 1e-6):
+        fd, fd_fine = fd
+        lim = 1e-4 * (res.DE + np.abs(res.d)) + 1e-6
+        converged = np.abs(fd - fd_fine) <= 0.1 * lim
+        if np.any(converged & (np.abs(fd_fine - res.d) > lim)):
             raise HarnessError(f"oracle derivative inconsistent with finite differences for {ast!r}")
+        if not converged.all():
+            extra.append("fd-self-check-inconclusive")
         return res
 
     def cmp_d(got, res, what):
@@ -918,6 +1133,16 @@ def check_number(case):
                          "parse_number")
     except _Timeout:
         return {"nt": False, "labels": ["simplify-timeout"]}
+    except (Violation, Rejected, HarnessError):
+        if res.bad.any():
+            return {"nt": False, "labels": ["masked-near-jump", "loud-at-jump"]}
+        raise
+    except Exception:  # noqa: BLE001
+        # the point lies within round-off of a jump (floor(-2/tanh(729)): -2 in floating point, -3 for
+        # sympy, which gives up with PrecisionExhausted): the formula is ill-conditioned there, not judged
+        if res.bad.any():
+            return {"nt": False, "labels": ["masked-near-jump", "loud-at-jump"]}
+        raise
     if isinstance(got, complex):
         raise Violation(f"parse_number(`{text}`, {envd}) returned the complex number {got!r}",
                         key="number:complex")
@@ -1014,7 +1239,10 @@ def check_evaluate(case, backend="numpy", tolk=TOLK):
         res = G.evaluate_ast(ast, env_all, shape=full)
     except G.DomainBug as e:
         raise HarnessError(f"generator produced an ill-defined formula: {e}") from None
-    judged, worst = compare(out.data, res, f"evaluate/{backend}", key, tolk, shape_exact=full, text=text)
+    try:
+        judged, worst = compare(out.data, res, f"evaluate/{backend}", key, tolk, shape_exact=full, text=text)
+    except Violation as vio:
+        raise attribute_value(vio, text) from None
     labs = ast_labels(ast, alts) + [GG.grid_label(spec), f"nfields:{len(fobjs)}", dev_label(worst),
                                     "collection" if case["as_collection"] else "dict"]
     used = G.names_in(ast)
@@ -1186,7 +1414,12 @@ def check_pointwise(case):
             is_int[idx] = (sv < thr) if below else (sv >= thr)
             F[idx] = float(ival) if is_int[idx] else num * sv / den + b
     e_s = sum(abs(w) * np.abs(coords[i]) for w, i in zip(ws, used))
-    E = np.ones(full) if kind == "sign" else abs(num / den) * e_s + abs(b) + abs(ival)
+    if kind == "sign":
+        # sympy.simplify rewrites sign(u) + X as (X*|u| + u)/|u| with u = s - thr expanded: the round-off
+        # of u (eps*(|s| + |thr|)) is then divided by |u|
+        E = 1.0 + (e_s + abs(thr)) / np.abs(s - thr)
+    else:
+        E = abs(num / den) * e_s + abs(b) + abs(ival)
     want = wfun(F, x_last)
     tol = TOLK * G.EPS * (wscale(E, F, x_last) + np.abs(want)) + 1e-300
 
@@ -1309,6 +1542,19 @@ def check_get_function_twice(case):
                     f"{what}: the function for `{form}` requested with user_funcs={{'f': {fname}}} fails with "
                     f"{type(e).__name__}: {str(e).strip().splitlines()[0][:200]} (f is not bound); requests on this "
                     f"expression object so far: {history}", key=key + ":user-function-not-bound") from None
+
+            if isinstance(e, AssertionError) and backend == "numba" and not scalar and shape != ():
+                # numba cannot lower a list literal whose items are arrays of different memory layouts (a
+                # row unpacked from the single argument array next to a computed array): the assertion
+                # `fromty.dtype == toty.dtype` in numba/cpython/listobj.py fails while compiling - a loud
+                # limitation of the third-party compiler for TensorExpression.get_function('numba',
+                # single_arg=True) with array arguments, counted and not judged
+                tb = e.__traceback__
+                while tb.tb_next is not None:
+                    tb = tb.tb_next
+                if tb.tb_frame.f_code.co_filename.replace("\\", "/").endswith("numba/cpython/listobj.py"):
+                    raise Rejected("numba cannot lower a list of arrays with different layouts "
+                                   "(TensorExpression, single_arg, array arguments)") from None
 
             def reraise(exc=e):
                 raise exc
